@@ -65,9 +65,28 @@ Q1(S) == Q0(S) \cup PairU(Q0(S)) \cup Binary(Q0(S), Q0(S)) \cup FromSeqU(S0(S))
    shape "d2": pair kind Q2 = Q0 \cup PairU(Q1) \cup Plus(Q1, Q1) \cup FromSeq(S1); seq kind T2 = every expression of
                depth <= 2 over S1 / Q1 that contains a pair node.
    shape "d3": Q2 and T2 wrapped once more (one side of an outermost Plus being a leaf). *)
+(* Chains over both kinds (see Iter): the spine may cross between the kinds through ToSeq / FromSeq; a Plus on the
+   spine has a leaf of its own kind on the other side.  Chains that stay within plain seq.Seq ("s") are C14's: they are
+   extended (FromSeq can still lift them) but not drained here. *)
+PChainLeaves == {EPair(12, 2)} \cup {[op |-> "fromseq", j |-> "kv", e |-> ESlice(s)] : s \in ChainSlices}
+PChainU(E) == {[op |-> o, p |-> p, e |-> e] : o \in {"tw", "dw", "flt"}, p \in {"klt12", "veven", "kgtv"}, e \in E}
+              \cup {[op |-> "map", m |-> "kmv", e |-> e] : e \in E}
+              \cup {[op |-> "join", j |-> j, e |-> e] : j \in {"voddnil", "dup"}, e \in E}
+PChainToSeq(E) == {[op |-> "toseq", j |-> j, e |-> e] : j \in {"tkv", "tkodd"}, e \in E}
+PChainFromSeq(E) == {[op |-> "fromseq", j |-> j, e |-> e] : j \in {"kv2", "kvev"}, e \in E}
+PChainBase(shape) == LET n == IF shape = "c3" THEN 3 ELSE 4 IN Tag(ChainTag("p", n), PChainLeaves) \cup Tag(ChainTag("s", n), ChainLeaves)
+PChainWraps(tag, e) ==
+  LET k == ChainKind(tag)
+      n == ChainLeft(tag)
+      to(kind) == IF n > 1 THEN ChainTag(kind, n - 1) ELSE IF kind = "p" THEN "pair" ELSE "seq"
+  IN IF k = "p"
+     THEN Tag(to("p"), PChainU({e}) \cup Binary({e}, PChainLeaves) \cup Binary(PChainLeaves, {e})) \cup Tag(to("m"), PChainToSeq({e}))
+     ELSE (IF k = "s" /\ n = 1 THEN {} ELSE Tag(to(k), ChainSteps(e))) \cup Tag(to("p"), PChainFromSeq({e}))
+
 PairBase(shape, w) ==
   LET S == SliceSet(w) IN
-  IF shape = "d1" THEN Tag("pick-pair", Q0(S)) \cup Tag("pick-seq", S0(S))
+  IF shape \in {"c3", "c4"} THEN PChainBase(shape)
+  ELSE IF shape = "d1" THEN Tag("pick-pair", Q0(S)) \cup Tag("pick-seq", S0(S))
   ELSE Tag("pick-pair", Q1(S)) \cup Tag("pick-mix", T1(S)) \cup Tag("pick-seq", S1(S) \ T1(S))
 PairWraps(tag, e, shape, w) ==
   LET S == SliceSet(w)
@@ -75,7 +94,8 @@ PairWraps(tag, e, shape, w) ==
       SP == IF shape = "d1" THEN S0(S) ELSE S1(S)
       pt == IF shape = "d3" THEN "pick2-pair" ELSE "pair"
       st == IF shape = "d3" THEN "pick2-mix" ELSE "seq"
-  IN CASE tag = "pick-pair" -> Tag(pt, {e} \cup PairU({e}) \cup Binary({e}, QP)) \cup Tag(st, ToSeqU({e}))
+  IN CASE tag \in ChainTags -> PChainWraps(tag, e)
+       [] tag = "pick-pair" -> Tag(pt, {e} \cup PairU({e}) \cup Binary({e}, QP)) \cup Tag(st, ToSeqU({e}))
        [] tag = "pick-mix" -> Tag(st, {e} \cup SeqUr({e}) \cup Binary({e}, SP) \cup Binary(SP, {e})) \cup Tag(pt, FromSeqU({e}))
        [] tag = "pick-seq" -> Tag(pt, FromSeqU({e}))
        [] tag = "pick2-pair" -> Tag("pair", PairU({e}) \cup Binary({e}, Q0(S)) \cup Binary(Q0(S), {e})) \cup Tag("seq", ToSeqU({e}))
